@@ -1,12 +1,12 @@
 /-
   C07 — assembly: from the per-row relations of `Lemmas/C07Lin.lean` to ONE statement about the
-  design matrix `codeMatrix` the whole pass builds (`Lemmas/C07Perm.lean`) and about its
+  design matrix `codeMatrixOf` the whole pass builds (`Lemmas/C07Perm.lean`) and about its
   least-squares solution.
 
   Part A (any field): two descriptions `obs`, `obs'` of the same observations that allocate the
   same unknowns in the same order (`touchedU` equal row by row) have the same index table; if
   the coefficient of every unknown `u` in row `i` changes by `s i * t u`, then
-  `codeMatrix obs' σ = D_s · codeMatrix obs σ · D_t` (columns identified through the common index
+  `codeMatrixOf obs' σ = D_s · codeMatrixOf obs σ · D_t` (columns identified through the common index
   table), and the solution of the re-expressed problem is the transformed solution.
 
   Part B (ℝ, generated linearisation): the rows `Gen.Lin.<type>` produces for the mirrored
@@ -25,15 +25,15 @@ section State
 variable {K : Type}
 
 /-- the index state after one observation depends only on the unknowns it allocates, in order -/
-theorem runEvs_state (name : Role → Coord → Unk) : ∀ (evs : List (Ev K)) (s : IdxState),
+theorem runEvs_state_map (name : Role → Coord → Unk) : ∀ (evs : List (Ev K)) (s : IdxState),
     (runEvs name evs s).1 = ((touches evs).map fun rc => name rc.1 rc.2).foldl IdxState.touch s
   | [], _ => rfl
   | .touch r c :: t, s => by
     show (runEvs name t (s.touch (name r c))).1 = _
-    rw [runEvs_state name t]; rfl
+    rw [runEvs_state_map name t]; rfl
   | .push r c v :: t, s => by
     show (runEvs name t s).1 = _
-    rw [runEvs_state name t]; rfl
+    rw [runEvs_state_map name t]; rfl
 
 /-- … and so does the state after the whole pass -/
 theorem runAll_state : ∀ (L : List (Ob K)) (s : IdxState),
@@ -41,7 +41,7 @@ theorem runAll_state : ∀ (L : List (Ob K)) (s : IdxState),
   | [], _ => rfl
   | ob :: t, s => by
     show (runAll t (runEvs ob.name ob.evs s).1).1 = _
-    rw [runAll_state t, runEvs_state, List.flatMap_cons, List.foldl_append]; rfl
+    rw [runAll_state t, runEvs_state_map, List.flatMap_cons, List.foldl_append]; rfl
 
 end State
 
@@ -80,9 +80,9 @@ theorem colUnk_get (σ : Equiv.Perm (Fin m)) (j : Fin (finalState obs σ).maxn) 
   colEquiv_get (finalState obs σ) (finalState_wf obs hw σ) (touchedSet obs) (finalState_get obs hw σ) j
 
 /-- entry of the design matrix = coefficient of the column's unknown in the row's observation -/
-theorem codeMatrix_apply (σ : Equiv.Perm (Fin m)) (r : Fin m) (j : Fin (finalState obs σ).maxn) :
-    codeMatrix obs σ r j = identCoef (obs (σ r)) (colUnk obs hw σ j) := by
-  rw [codeMatrix_eq obs hw σ]; rfl
+theorem codeMatrixOf_apply (σ : Equiv.Perm (Fin m)) (r : Fin m) (j : Fin (finalState obs σ).maxn) :
+    codeMatrixOf obs σ r j = identCoef (obs (σ r)) (colUnk obs hw σ j) := by
+  rw [codeMatrixOf_eq obs hw σ]; rfl
 
 theorem colUnk_cast (hT : ∀ i, touchedU (obs' i) = touchedU (obs i)) (σ : Equiv.Perm (Fin m))
     (j' : Fin (finalState obs' σ).maxn) :
@@ -92,20 +92,20 @@ theorem colUnk_cast (hT : ∀ i, touchedU (obs' i) = touchedU (obs i)) (σ : Equ
   have h1 : (finalState obs σ).get (colUnk obs' hw' σ j') = j'.1 + 1 := by
     rw [← finalState_congr obs obs' hT σ]; exact h0
   have e : (castCol obs obs' hT σ j').1 = j'.1 := rfl
-  refine IdxState.get_inj (finalState_wf obs hw σ) (by rw [h1]; omega) ?_
+  refine IdxState.get_inj' (finalState_wf obs hw σ) (by rw [h1]; omega) ?_
   rw [h1, h2, e]
 
 include hw' in
 /-- **assembled sign relation.**  If every coefficient of row `i` changes by the row sign `s i`
     times the sign `t u` of its unknown, the design matrix of the whole pass is
     `D_s · A · D_t` (rows in processing order `σ`, columns identified by `castCol`) -/
-theorem codeMatrix_sign (hT : ∀ i, touchedU (obs' i) = touchedU (obs i)) (s : Fin m → K) (t : Unk → K)
+theorem codeMatrixOf_sign (hT : ∀ i, touchedU (obs' i) = touchedU (obs i)) (s : Fin m → K) (t : Unk → K)
     (hc : ∀ i u, identCoef (obs' i) u = s i * t u * identCoef (obs i) u) (σ : Equiv.Perm (Fin m)) :
-    codeMatrix obs' σ =
-      (diagonal (fun r => s (σ r)) * codeMatrix obs σ * diagonal (fun j => t (colUnk obs hw σ j))).submatrix
+    codeMatrixOf obs' σ =
+      (diagonal (fun r => s (σ r)) * codeMatrixOf obs σ * diagonal (fun j => t (colUnk obs hw σ j))).submatrix
         (Equiv.refl _) (castCol obs obs' hT σ) := by
   ext r j'
-  rw [submatrix_apply, Matrix.mul_diagonal, Matrix.diagonal_mul, codeMatrix_apply obs' hw', codeMatrix_apply obs hw,
+  rw [submatrix_apply, Matrix.mul_diagonal, Matrix.diagonal_mul, codeMatrixOf_apply obs' hw', codeMatrixOf_apply obs hw,
     colUnk_cast obs obs' hw hw' hT σ j', hc]
   simp only [Equiv.refl_apply]; ring
 
@@ -119,8 +119,8 @@ theorem solution_sign (hT : ∀ i, touchedU (obs' i) = touchedU (obs i)) (s : Fi
     (hc : ∀ i u, identCoef (obs' i) u = s i * t u * identCoef (obs i) u) (σ : Equiv.Perm (Fin m))
     (b : Fin m → K) (P : Matrix (Fin m) (Fin m) K) (S : Finset (Fin (finalState obs σ).maxn))
     (x : Fin (finalState obs σ).maxn → K) (v : Fin m → K) (rtr : K)
-    (h : LS.IsLSSolution (codeMatrix obs σ) b P S x v rtr) :
-    LS.IsLSSolution (codeMatrix obs' σ) (diagonal (fun r => s (σ r)) *ᵥ b)
+    (h : LS.IsLSSolution (codeMatrixOf obs σ) b P S x v rtr) :
+    LS.IsLSSolution (codeMatrixOf obs' σ) (diagonal (fun r => s (σ r)) *ᵥ b)
       (diagonal (fun r => s (σ r)) * P * diagonal (fun r => s (σ r)))
       (S.map (castCol obs obs' hT σ).symm.toEmbedding)
       ((diagonal (fun j => t (colUnk obs hw σ j)) *ᵥ x) ∘ castCol obs obs' hT σ)
@@ -128,7 +128,7 @@ theorem solution_sign (hT : ∀ i, touchedU (obs' i) = touchedU (obs i)) (s : Fi
   have h1 := (h.rowSign (fun r => s (σ r)) (fun r => hs (σ r))).colSign
     (fun j => t (colUnk obs hw σ j)) (fun j => ht _)
   have h2 := h1.perm (Equiv.refl (Fin m)) (castCol obs obs' hT σ)
-  rw [← codeMatrix_sign obs obs' hw hw' hT s t hc σ] at h2
+  rw [← codeMatrixOf_sign obs obs' hw hw' hT s t hc σ] at h2
   exact h2
 
 end Sign
@@ -157,12 +157,12 @@ theorem solution_shift (σ : Equiv.Perm (Fin m)) (uOri : Unk) (hu : uOri ∈ tou
     (b b' : Fin m → K) (hb : ∀ r, b' r = if σ r ∈ R then b r + d else b r)
     (P : Matrix (Fin m) (Fin m) K) (S : Finset (Fin (finalState obs σ).maxn)) (hk : colOf obs hw σ uOri hu ∉ S)
     (x : Fin (finalState obs σ).maxn → K) (v : Fin m → K) (rtr : K)
-    (h : LS.IsLSSolution (codeMatrix obs σ) b P S x v rtr) :
-    LS.IsLSSolution (codeMatrix obs σ) b' P S (x + (-d) • Pi.single (colOf obs hw σ uOri hu) 1) v rtr := by
-  have hcol : ∀ r, codeMatrix obs σ r (colOf obs hw σ uOri hu) =
+    (h : LS.IsLSSolution (codeMatrixOf obs σ) b P S x v rtr) :
+    LS.IsLSSolution (codeMatrixOf obs σ) b' P S (x + (-d) • Pi.single (colOf obs hw σ uOri hu) 1) v rtr := by
+  have hcol : ∀ r, codeMatrixOf obs σ r (colOf obs hw σ uOri hu) =
       if r ∈ Finset.univ.filter (fun r => σ r ∈ R) then -1 else 0 := by
     intro r
-    rw [codeMatrix_apply obs hw, colUnk_colOf]
+    rw [codeMatrixOf_apply obs hw, colUnk_colOf]
     by_cases hr : σ r ∈ R
     · simp [hr, hin _ hr]
     · simp [hr, hout _ hr]
@@ -238,13 +238,15 @@ theorem identCoef_sign (name : Role → Coord → Unk) (hname : ∀ r c, (name r
 
 /-! ## Part B — the generated linearisation: mirrored rows of all 13 types -/
 
+/- (`RowKind`, not `Kind`: `Gama.Lin.Kind` is C05's, Model/LinPass.lean — the two property files are
+   importable together) -/
 /-- the 13 observation classes `LocalLinearization` visits -/
-inductive Kind where
+inductive RowKind where
   | direction | distance | angle | azimuth | s_distance | z_angle | h_diff | x | y | z | xdiff | ydiff | zdiff
 deriving DecidableEq, Repr
 
 /-- the generated linearisation of one observation of class `k` -/
-noncomputable def lin (k : Kind) (fuel : Nat) (o : Obs ℝ) : Except LinErr (LinOut ℝ) :=
+noncomputable def lin (k : RowKind) (fuel : Nat) (o : Obs ℝ) : Except LinErr (LinOut ℝ) :=
   match k with
   | .direction => Gen.Lin.direction fuel o | .distance => Gen.Lin.distance fuel o
   | .angle => Gen.Lin.angle fuel o | .azimuth => Gen.Lin.azimuth fuel o
@@ -253,35 +255,35 @@ noncomputable def lin (k : Kind) (fuel : Nat) (o : Obs ℝ) : Except LinErr (Lin
   | .xdiff => Gen.Lin.xdiff fuel o | .ydiff => Gen.Lin.ydiff fuel o | .zdiff => Gen.Lin.zdiff fuel o
 
 /-- horizontal angular classes: their right-hand side is reduced to `(-200, 200]` gon -/
-def Kind.angular : Kind → Bool
+def RowKind.angular : RowKind → Bool
   | .direction | .angle | .azimuth => true
   | _ => false
 
 /-- the mirrored description of one observation: `y` of all points negated (what
     `remove_inconsistency` does); horizontal angles read in the other sense; `Y`, `Ydiff` negated -/
-def mirObs (k : Kind) (o : Obs ℝ) : Obs ℝ :=
+def mirObs (k : RowKind) (o : Obs ℝ) : Obs ℝ :=
   match k with
   | .direction | .angle | .azimuth => negObs o
   | .y | .ydiff => { flipObs o with value := -o.value }
   | _ => flipObs o
 
 /-- sign of the mirrored row -/
-def rowSgn : Kind → ℝ
+def rowSgn : RowKind → ℝ
   | .direction | .angle | .azimuth | .y | .ydiff => -1
   | _ => 1
 
-theorem rowSgn_sq (k : Kind) : rowSgn k * rowSgn k = 1 := by cases k <;> simp [rowSgn]
+theorem rowSgn_sq (k : RowKind) : rowSgn k * rowSgn k = 1 := by cases k <;> simp [rowSgn]
 theorem mirrorSgn_sq (c : Coord) : mirrorSgn c * mirrorSgn c = 1 := by cases c <;> simp [mirrorSgn]
 
 /-- the guards under which the generated function is the closed form (no zero-length sight) -/
-def guard (k : Kind) (o : Obs ℝ) : Prop :=
+def guard (k : RowKind) (o : Obs ℝ) : Prop :=
   match k with
   | .direction | .azimuth | .distance => ¬ hdist o < CUT
   | .angle => ¬ hdist o < CUT ∧ ¬ hdist2 o < CUT
   | _ => True
 
 /-- what the mirrored row is, in one shape for all classes -/
-def MirrorRel (k : Kind) (out out' : LinOut ℝ) : Prop :=
+def MirrorRel (k : RowKind) (out out' : LinOut ℝ) : Prop :=
   touches out'.evs = touches out.evs ∧
   (∀ r c, coef out'.pushes r c = rowSgn k * mirrorSgn c * coef out.pushes r c) ∧
   (if k.angular then (out.rhs ≠ HALF → out'.rhs = -out.rhs) ∧ (out.rhs = HALF → out'.rhs = HALF)
@@ -300,7 +302,7 @@ theorem direction_mir (fuel fuel' : Nat) (o : Obs ℝ) (out out' : LinOut ℝ) (
     rw [e1, e2]; simp only [directionEvs, e3, e4]
     cases o.pfrom.free_xy <;> cases o.pto.free_xy <;> simp [touches]
   · rw [(direction_flip fuel fuel' o out out' h hok hok').2 r c]; simp [rowSgn]
-  · simp only [Kind.angular, if_true]
+  · simp only [RowKind.angular, if_true]
     exact direction_flip_rhs fuel fuel' o out out' h hok hok'
 
 theorem azimuth_mir (fuel fuel' : Nat) (o : Obs ℝ) (out out' : LinOut ℝ) (h : ¬ hdist o < CUT)
@@ -317,7 +319,7 @@ theorem azimuth_mir (fuel fuel' : Nat) (o : Obs ℝ) (out out' : LinOut ℝ) (h 
     rw [e1, e2]; simp only [azimuthEvs, e3, e4]
     cases o.pfrom.free_xy <;> cases o.pto.free_xy <;> simp [touches]
   · rw [this.2 r c]; simp [rowSgn]
-  · simp only [Kind.angular, if_true]; exact this.1
+  · simp only [RowKind.angular, if_true]; exact this.1
 
 theorem angle_mir (fuel fuel' : Nat) (o : Obs ℝ) (out out' : LinOut ℝ) (h : ¬ hdist o < CUT) (h2 : ¬ hdist2 o < CUT)
     (hok : Gen.Lin.angle fuel o = .ok out) (hok' : Gen.Lin.angle fuel' (negObs o) = .ok out') :
@@ -336,7 +338,7 @@ theorem angle_mir (fuel fuel' : Nat) (o : Obs ℝ) (out out' : LinOut ℝ) (h : 
     rw [e1, e2]; simp only [angleEvs, e3, e4, e5]
     cases o.pfrom.free_xy <;> cases o.pto.free_xy <;> cases o.pfs.free_xy <;> simp [touches]
   · rw [this.2 r c]; simp [rowSgn]
-  · simp only [Kind.angular, if_true]; exact this.1
+  · simp only [RowKind.angular, if_true]; exact this.1
 
 theorem distance_mir (fuel fuel' : Nat) (o : Obs ℝ) (out out' : LinOut ℝ) (h : ¬ hdist o < CUT)
     (hok : Gen.Lin.distance fuel o = .ok out) (hok' : Gen.Lin.distance fuel' (flipObs o) = .ok out') :
@@ -354,7 +356,7 @@ theorem distance_mir (fuel fuel' : Nat) (o : Obs ℝ) (out out' : LinOut ℝ) (h
   · simp only [LinOut.pushes, e1, e2, dX_flip, dY_flip, hdist_flip]
     cases o.pfrom.free_xy <;> cases o.pto.free_xy <;> cases r <;> cases c <;>
       simp [coef, pushes, mirrorSgn, rowSgn, neg_div]
-  · simp [Kind.angular, rowSgn, hdist_flip, e3]
+  · simp [RowKind.angular, rowSgn, hdist_flip, e3]
 
 theorem s_distance_mir (fuel fuel' : Nat) (o : Obs ℝ) (out out' : LinOut ℝ)
     (hok : Gen.Lin.s_distance fuel o = .ok out) (hok' : Gen.Lin.s_distance fuel' (flipObs o) = .ok out') :
@@ -377,7 +379,7 @@ theorem s_distance_mir (fuel fuel' : Nat) (o : Obs ℝ) (out out' : LinOut ℝ)
     · simp only [LinOut.pushes, sdistEvs, e1, e2, e4, e5, dX_flip, dY_flip, dZ_flip, sdist_flip]
       cases o.pfrom.free_xy <;> cases o.pto.free_xy <;> cases o.pfrom.free_z <;> cases o.pto.free_z <;>
         cases r <;> cases c <;> simp [coef, pushes, mirrorSgn, rowSgn, neg_div]
-    · simp [Kind.angular, rowSgn, e3]
+    · simp [RowKind.angular, rowSgn, e3]
 
 theorem z_angle_mir (fuel fuel' : Nat) (o : Obs ℝ) (out out' : LinOut ℝ)
     (hok : Gen.Lin.z_angle fuel o = .ok out) (hok' : Gen.Lin.z_angle fuel' (flipObs o) = .ok out') :
@@ -404,11 +406,11 @@ theorem z_angle_mir (fuel fuel' : Nat) (o : Obs ℝ) (out out' : LinOut ℝ)
     · simp only [LinOut.pushes, zangleEvs, e1, e2, e4, e5, dX_flip, dY_flip, dZ_flip, hdist_flip, ez, ek]
       cases o.pfrom.free_xy <;> cases o.pto.free_xy <;> cases o.pfrom.free_z <;> cases o.pto.free_z <;>
         cases r <;> cases c <;> simp [coef, pushes, mirrorSgn, rowSgn]
-    · simp [Kind.angular, rowSgn, e3, ezc]
+    · simp [RowKind.angular, rowSgn, e3, ezc]
 
 /-- the classes that do not read `y`: the mirrored row is the same row, and it has no `y` and no
     orientation coefficient -/
-theorem plain_mir (k : Kind) (out out' : LinOut ℝ) (hk : k.angular = false) (hr : rowSgn k = 1) (e : out' = out)
+theorem plain_mir (k : RowKind) (out out' : LinOut ℝ) (hk : k.angular = false) (hr : rowSgn k = 1) (e : out' = out)
     (h0 : ∀ r, coef out.pushes r .y = 0 ∧ coef out.pushes r .ori = 0) : MirrorRel k out out' := by
   subst e
   refine ⟨rfl, fun r c => ?_, ?_⟩
@@ -474,7 +476,7 @@ theorem y_mir (fuel fuel' : Nat) (o : Obs ℝ) (out out' : LinOut ℝ)
   refine ⟨by simp only [e1], fun r c => ?_, ?_⟩
   · simp only [LinOut.pushes, e1]
     cases o.pfrom.free_xy <;> cases r <;> cases c <;> simp [coef, pushes, mirrorSgn, rowSgn]
-  · simp only [Kind.angular, rowSgn]
+  · simp only [RowKind.angular, rowSgn]
     show (-o.value - fromY (flipObs o)) * 1000 = -1 * ((o.value - fromY o) * 1000)
     have : fromY (flipObs o) = -fromY o := rfl
     rw [this]; ring
@@ -489,12 +491,12 @@ theorem ydiff_mir (fuel fuel' : Nat) (o : Obs ℝ) (out out' : LinOut ℝ)
   refine ⟨by simp only [e1, e2], fun r c => ?_, ?_⟩
   · simp only [LinOut.pushes, e1, e2]
     cases o.pfrom.free_xy <;> cases o.pto.free_xy <;> cases r <;> cases c <;> simp [coef, pushes, mirrorSgn, rowSgn]
-  · simp only [Kind.angular, rowSgn]
+  · simp only [RowKind.angular, rowSgn]
     show (-o.value - dY (flipObs o)) * 1000 = -1 * ((o.value - dY o) * 1000)
     rw [dY_flip]; ring
 
 /-- **every class**: the generated row of the mirrored description -/
-theorem row_mirror (k : Kind) (fuel fuel' : Nat) (o : Obs ℝ) (out out' : LinOut ℝ) (hg : guard k o)
+theorem row_mirror (k : RowKind) (fuel fuel' : Nat) (o : Obs ℝ) (out out' : LinOut ℝ) (hg : guard k o)
     (hok : lin k fuel o = .ok out) (hok' : lin k fuel' (mirObs k o) = .ok out') : MirrorRel k out out' := by
   cases k
   · exact direction_mir fuel fuel' o out out' hg hok hok'
@@ -512,7 +514,7 @@ theorem row_mirror (k : Kind) (fuel fuel' : Nat) (o : Obs ℝ) (out out' : LinOu
   · exact zdiff_mir fuel fuel' o out out' hok hok'
 
 /-- every generated event list allocates an unknown before it pushes a coefficient for it -/
-theorem lin_wellTouched (k : Kind) (fuel : Nat) (o : Obs ℝ) (out : LinOut ℝ) (hg : guard k o)
+theorem lin_wellTouched (k : RowKind) (fuel : Nat) (o : Obs ℝ) (out : LinOut ℝ) (hg : guard k o)
     (hok : lin k fuel o = .ok out) : wellTouched out.evs [] = true := by
   cases k
   · exact (direction_targets fuel o out hg hok).2
@@ -549,7 +551,7 @@ theorem lin_wellTouched (k : Kind) (fuel : Nat) (o : Obs ℝ) (out : LinOut ℝ)
     of its unknowns (`(name r c).c = c`: a point's `y` is a `y` unknown, a stand-point's orientation
     an orientation unknown) -/
 structure GenRow where
-  kind : Kind
+  kind : RowKind
   o : Obs ℝ
   name : Role → Coord → Unk
 
@@ -574,7 +576,7 @@ theorem obOf_wellTouched (hl : Linearises fuel rows outs) (hg : ∀ i, guard (ro
     ∀ i, wellTouched (obOf rows outs i).evs [] = true :=
   fun i => lin_wellTouched _ fuel _ _ (hg i) (hl i)
 
-theorem guard_mir (k : Kind) (o : Obs ℝ) (hg : guard k o) : guard k (mirObs k o) := by
+theorem guard_mir (k : RowKind) (o : Obs ℝ) (hg : guard k o) : guard k (mirObs k o) := by
   cases k <;> simp only [guard, mirObs] at hg ⊢
   · rw [show hdist (negObs o) = hdist o from hdist_flip o]; exact hg
   · rw [hdist_flip]; exact hg
@@ -583,12 +585,12 @@ theorem guard_mir (k : Kind) (o : Obs ℝ) (hg : guard k o) : guard k (mirObs k 
 
 /-- **the mirrored pass, matrix form**: `A' = D_s A D_t`, `s` = −1 on the rows of directions,
     angles, azimuths, `Y`, `Ydiff`; `t` = −1 on the columns of `y` unknowns and orientations -/
-theorem mirror_codeMatrix (hl : Linearises fuel rows outs) (hl' : Linearises fuel' (fun i => mirRow (rows i)) outs')
+theorem mirror_codeMatrixOf (hl : Linearises fuel rows outs) (hl' : Linearises fuel' (fun i => mirRow (rows i)) outs')
     (hg : ∀ i, guard (rows i).kind (rows i).o) (hname : ∀ i r c, ((rows i).name r c).c = c)
     (σ : Equiv.Perm (Fin m)) :
     ∃ (hT : ∀ i, touchedU (obOf rows outs' i) = touchedU (obOf rows outs i)),
-      codeMatrix (obOf rows outs') σ =
-        (diagonal (fun r => rowSgn (rows (σ r)).kind) * codeMatrix (obOf rows outs) σ *
+      codeMatrixOf (obOf rows outs') σ =
+        (diagonal (fun r => rowSgn (rows (σ r)).kind) * codeMatrixOf (obOf rows outs) σ *
           diagonal (fun j => mirrorSgn (colUnk (obOf rows outs) (obOf_wellTouched fuel rows outs hl hg) σ j).c)).submatrix
           (Equiv.refl _) (castCol (obOf rows outs) (obOf rows outs') hT σ) := by
   have hrel : ∀ i, MirrorRel (rows i).kind (outs i) (outs' i) := fun i =>
@@ -597,7 +599,7 @@ theorem mirror_codeMatrix (hl : Linearises fuel rows outs) (hl' : Linearises fue
     unfold touchedU obOf; simp only; rw [(hrel i).1]
   have hw' : ∀ i, wellTouched (obOf rows outs' i).evs [] = true := fun i =>
     lin_wellTouched _ fuel' _ _ (guard_mir _ _ (hg i)) (hl' i)
-  refine ⟨hT, codeMatrix_sign _ _ _ hw' hT (fun i => rowSgn (rows i).kind) (fun u => mirrorSgn u.c) (fun i u => ?_) σ⟩
+  refine ⟨hT, codeMatrixOf_sign _ _ _ hw' hT (fun i => rowSgn (rows i).kind) (fun u => mirrorSgn u.c) (fun i u => ?_) σ⟩
   exact identCoef_sign (rows i).name (hname i) (outs i).evs (outs' i).evs _ mirrorSgn (hrel i).2.1 u
 
 /-- right-hand sides of the mirrored pass: `b' = D_s b`, provided no horizontal angular row sits
@@ -613,7 +615,7 @@ theorem mirror_rhs (hl : Linearises fuel rows outs) (hl' : Linearises fuel' (fun
   · rw [if_pos ha] at h3
     rw [h3.1 (hnb _ ha)]
     have : rowSgn (rows (σ r)).kind = -1 := by
-      cases hk : (rows (σ r)).kind <;> simp [hk, Kind.angular] at ha <;> rfl
+      cases hk : (rows (σ r)).kind <;> simp [hk, RowKind.angular] at ha <;> rfl
     rw [this]; ring
   · rw [if_neg ha] at h3; exact h3
 
@@ -624,9 +626,9 @@ theorem mirror_solution (hl : Linearises fuel rows outs) (hl' : Linearises fuel'
     (hnb : ∀ i, (rows i).kind.angular = true → (outs i).rhs ≠ HALF) (σ : Equiv.Perm (Fin m))
     (P : Matrix (Fin m) (Fin m) ℝ) (S : Finset (Fin (finalState (obOf rows outs) σ).maxn))
     (x : Fin (finalState (obOf rows outs) σ).maxn → ℝ) (v : Fin m → ℝ) (rtr : ℝ)
-    (h : LS.IsLSSolution (codeMatrix (obOf rows outs) σ) (fun r => (outs (σ r)).rhs) P S x v rtr) :
+    (h : LS.IsLSSolution (codeMatrixOf (obOf rows outs) σ) (fun r => (outs (σ r)).rhs) P S x v rtr) :
     ∃ (hT : ∀ i, touchedU (obOf rows outs' i) = touchedU (obOf rows outs i)),
-      LS.IsLSSolution (codeMatrix (obOf rows outs') σ) (fun r => (outs' (σ r)).rhs)
+      LS.IsLSSolution (codeMatrixOf (obOf rows outs') σ) (fun r => (outs' (σ r)).rhs)
         (diagonal (fun r => rowSgn (rows (σ r)).kind) * P * diagonal (fun r => rowSgn (rows (σ r)).kind))
         (S.map (castCol (obOf rows outs) (obOf rows outs') hT σ).symm.toEmbedding)
         ((diagonal (fun j => mirrorSgn (colUnk (obOf rows outs) (obOf_wellTouched fuel rows outs hl hg) σ j).c) *ᵥ x) ∘
@@ -708,11 +710,11 @@ theorem rotation_solution (R : Finset (Fin m)) (hR : R.Nonempty) (uOri : Unk) (h
     (hsmall : ∀ i ∈ R, |(outs i).rhs + c * R2CC| < HALF)
     (σ : Equiv.Perm (Fin m)) (P : Matrix (Fin m) (Fin m) ℝ) (S : Finset (Fin (finalState (obOf rows outs) σ).maxn))
     (x : Fin (finalState (obOf rows outs) σ).maxn → ℝ) (v : Fin m → ℝ) (rtr : ℝ)
-    (h : LS.IsLSSolution (codeMatrix (obOf rows outs) σ) (fun r => (outs (σ r)).rhs) P S x v rtr) :
+    (h : LS.IsLSSolution (codeMatrixOf (obOf rows outs) σ) (fun r => (outs (σ r)).rhs) P S x v rtr) :
     obOf rows (fun i => if i ∈ R then outs' i else outs i) = obOf rows outs ∧
     ∃ hu : uOri ∈ touchedSet (obOf rows outs),
       (colOf (obOf rows outs) (obOf_wellTouched fuel rows outs hl hg) σ uOri hu ∉ S →
-        LS.IsLSSolution (codeMatrix (obOf rows outs) σ) (fun r => (if σ r ∈ R then outs' (σ r) else outs (σ r)).rhs) P S
+        LS.IsLSSolution (codeMatrixOf (obOf rows outs) σ) (fun r => (if σ r ∈ R then outs' (σ r) else outs (σ r)).rhs) P S
           (x + (-(c * R2CC)) • Pi.single (colOf (obOf rows outs) (obOf_wellTouched fuel rows outs hl hg) σ uOri hu) 1)
           v rtr) := by
   have hd : ∀ i ∈ R, (rows i).kind = .direction ∧ ¬ hdist (rows i).o < CUT := fun i hi => by
@@ -785,14 +787,14 @@ end Rotation
 /-! ## translation, assembled (identical problem) -/
 
 /-- the translated description of one observation (observed coordinates are translated too) -/
-def trKind (tx ty tz : ℝ) (k : Kind) (o : Obs ℝ) : Obs ℝ :=
+def trKind (tx ty tz : ℝ) (k : RowKind) (o : Obs ℝ) : Obs ℝ :=
   match k with
   | .x => { trObs tx ty tz o with value := o.value + tx }
   | .y => { trObs tx ty tz o with value := o.value + ty }
   | .z => { trObs tx ty tz o with value := o.value + tz }
   | _ => trObs tx ty tz o
 
-theorem lin_translation (tx ty tz : ℝ) (k : Kind) (fuel : Nat) (o : Obs ℝ) :
+theorem lin_translation (tx ty tz : ℝ) (k : RowKind) (fuel : Nat) (o : Obs ℝ) :
     lin k fuel (trKind tx ty tz k o) = lin k fuel o := by
   cases k
   · exact direction_tr tx ty tz fuel o
@@ -898,10 +900,10 @@ noncomputable def identCol (hS : touchedSet obs' = touchedSet obs) (σ τ : Equi
     that `to` is allocated before `from`) and give every unknown the same coefficient in every row
     build design matrices that differ by the row permutation `σ⁻¹ ∘ τ` and the column renumbering that
     matches unknowns by identity -/
-theorem codeMatrix_ident (hS : touchedSet obs' = touchedSet obs)
+theorem codeMatrixOf_ident (hS : touchedSet obs' = touchedSet obs)
     (hc : ∀ i u, identCoef (obs' i) u = identCoef (obs i) u) (σ τ : Equiv.Perm (Fin m)) :
-    codeMatrix obs' τ = (codeMatrix obs σ).submatrix (τ.trans σ.symm) (identCol obs obs' hw hw' hS σ τ) := by
-  rw [codeMatrix_eq obs hw σ, codeMatrix_eq obs' hw' τ]
+    codeMatrixOf obs' τ = (codeMatrixOf obs σ).submatrix (τ.trans σ.symm) (identCol obs obs' hw hw' hS σ τ) := by
+  rw [codeMatrixOf_eq obs hw σ, codeMatrixOf_eq obs' hw' τ]
   ext r j
   simp [identMatrix, identCol, hc]
 
@@ -910,12 +912,12 @@ theorem solution_ident (hS : touchedSet obs' = touchedSet obs)
     (hc : ∀ i u, identCoef (obs' i) u = identCoef (obs i) u) (σ τ : Equiv.Perm (Fin m))
     (rhs : Fin m → K) (W : Matrix (Fin m) (Fin m) K) (S : Finset (Fin (finalState obs σ).maxn))
     (x : Fin (finalState obs σ).maxn → K) (v : Fin m → K) (rtr : K)
-    (h : LS.IsLSSolution (codeMatrix obs σ) (rhs ∘ σ) (W.submatrix σ σ) S x v rtr) :
-    LS.IsLSSolution (codeMatrix obs' τ) (rhs ∘ τ) (W.submatrix τ τ)
+    (h : LS.IsLSSolution (codeMatrixOf obs σ) (rhs ∘ σ) (W.submatrix σ σ) S x v rtr) :
+    LS.IsLSSolution (codeMatrixOf obs' τ) (rhs ∘ τ) (W.submatrix τ τ)
       (S.map (identCol obs obs' hw hw' hS σ τ).symm.toEmbedding)
       (x ∘ identCol obs obs' hw hw' hS σ τ) (v ∘ (τ.trans σ.symm)) rtr := by
   have := h.perm (τ.trans σ.symm) (identCol obs obs' hw hw' hS σ τ)
-  rw [← codeMatrix_ident obs obs' hw hw' hS hc σ τ] at this
+  rw [← codeMatrixOf_ident obs obs' hw hw' hS hc σ τ] at this
   have e1 : (rhs ∘ σ) ∘ (τ.trans σ.symm) = rhs ∘ τ := by funext r; simp
   have e2 : (W.submatrix σ σ).submatrix (τ.trans σ.symm) (τ.trans σ.symm) = W.submatrix τ τ := by
     ext r c; simp
